@@ -95,6 +95,15 @@ func gen(tier string) []proto.Item {
 				items = append(items, proto.Item{Scn: s, Class: fmt.Sprintf("%s/other-connections-synack-first/dest-%d", v, d)})
 			}
 		}
+		if proto.Info(v).Parallel {
+			// no pacing at all (the library accepts a zero delay): the sender still stops once the destination's reply has been
+			// processed, on every schedule with one preemption
+			for _, d := range []int{1, 2} {
+				s := proto.Scn{Variant: v, First: 1, Last: 6, Dest: d, IPIDBase: 1000, EchoBase: 50, TimeoutMs: 100, DelayMs: -1, Bound: 1}
+				s.Hops = map[int]proto.HopSpec{d: {DelayUs: -1}}
+				items = append(items, proto.Item{Scn: s, Class: fmt.Sprintf("%s/no-send-delay/dest-%d", v, d)})
+			}
+		}
 		// non-initial state: the same configuration as second and third run of the process
 		s := proto.Scn{Variant: v, First: 1, Last: 4, Dest: 3, IPIDBase: 65530, EchoBase: 65533, TimeoutMs: 300, DelayMs: 10}
 		s2 := s
